@@ -574,6 +574,18 @@ class ApertureFamily:
         names = APER_CLASSES[st.cfg['cls']]
         if r < 0.4:
             nm = rng.pick(names + ['positions'])
+            if nm == 'positions' and rng.chance(0.25):
+                # the same position(s) again, possibly as (x, y) <-> [(x, y)]
+                cur = np.atleast_2d(np.array(st.positions, dtype=float))
+                if cur.shape[0] == 1 and rng.chance(0.7):
+                    was_scalar = np.ndim(st.positions[0]) == 0
+                    val = ([list(cur[0])] if was_scalar else list(cur[0]))
+                else:
+                    val = [list(r) for r in cur] if np.ndim(
+                        st.positions[0]) else list(cur[0])
+                return {'op': 'set', 'name': nm, 'value': val}
+            if nm != 'positions' and nm != 'theta' and rng.chance(0.1):
+                return {'op': 'set', 'name': nm, 'value': st.params[nm]}
             if nm == 'positions':
                 if rng.chance(0.12):
                     return {'op': 'set', 'name': nm, 'value': [[1, 2, 3]]}
@@ -800,8 +812,11 @@ class PSFPhotFamily:
                     'reuse_buffer': rng.chance(0.4)}
         what = rng.pick(['results', 'fit_info', 'init_params',
                          'finder_results', 'fit_params', 'model_image',
-                         'residual_image', 'config'])
-        return {'op': 'read', 'what': what}
+                         'residual_image', 'model_image', 'residual_image',
+                         'config'])
+        return {'op': 'read', 'what': what,
+                'localbkg': rng.chance(0.4),
+                'psf_shape': rng.pick([None, None, 5, [7, 5]])}
 
     def _request(self, st, op):
         from astropy.table import Table
@@ -852,7 +867,12 @@ class PSFPhotFamily:
                     init_params=None if init is None else init.copy())
 
     @staticmethod
-    def _observe(obj, what, data, cfg):
+    def _observe(obj, what, data, cfg, opts=None):
+        opts = opts or {}
+        kw = {'include_localbkg': bool(opts.get('localbkg'))}
+        ps = opts.get('psf_shape')
+        if ps is not None:
+            kw['psf_shape'] = tuple(ps) if isinstance(ps, list) else ps
         if what == 'fit_info':
             fi = call(lambda: obj.fit_info if not cfg['iterative']
                       else obj.fit_results[-1].fit_info)
@@ -864,9 +884,9 @@ class PSFPhotFamily:
                     'fit_param_errs': np.asarray(
                         fi.get('fit_param_errs', []))}
         if what == 'model_image':
-            return call(obj.make_model_image, data.shape)
+            return call(obj.make_model_image, data.shape, **kw)
         if what == 'residual_image':
-            return call(obj.make_residual_image, data)
+            return call(obj.make_residual_image, data, **kw)
         if what == 'config':
             o = obj._psfphot if cfg['iterative'] else obj
             return {'grouper': repr(o.grouper),
@@ -947,11 +967,11 @@ class PSFPhotFamily:
             raise Inapplicable('no call yet')
         what = op['what']
         req = self._request(st, st.last_call)
-        val = self._observe(o, what, req[0], st.cfg)
+        val = self._observe(o, what, req[0], st.cfg, op)
         st.trace.add('read', what, digest(val))
         fresh = self.build(st.cfg, st.scene)
         self._do_call(fresh, req)
-        exp = self._observe(fresh, what, req[0], st.cfg)
+        exp = self._observe(fresh, what, req[0], st.cfg, op)
         _cmp(st, what, val, exp,
              what=f'{what} after calls {st.hist}')
 
